@@ -110,7 +110,7 @@ Inductive tag :=
 | T_recombination        (* "Using the recombination clock is not currently supported" *)
 | T_popsize_dict         (* ValueError raised by PopulationSizeHistory( **dict ) *)
 | T_constr_iterations    (* "Number of constrained least squares iterations must be" *)
-| T_min_branch_length    (* "Minimum branch length must be positive" *)
+| T_min_branch_length    (* "Minimum branch length must be positive and finite" *)
 | T_priors_unused        (* "Priors are not used for method" *)
 | T_popsize_unused       (* "Population size is not used for method" *)
 | T_popsize_required     (* "Must specify population size if priors are not already built" *)
@@ -146,9 +146,10 @@ Definition init_checks (variational : bool) (pop : popsize) (p : params) (f : ts
   (* 139-153 *) check (match p_constr_iterations p with
                        | None => false
                        | Some n => negb (is_int n && ge0 n) end) VE T_constr_iterations >>
-  (* 155-160 *) check (match p_min_branch_length p with
+  (* 155-160 : [not (x > 0.0 and np.isfinite(x))] *)
+                check (match p_min_branch_length p with
                        | None => false
-                       | Some n => negb (gt0 n) end) VE T_min_branch_length >>
+                       | Some n => negb (gt0 n && finite n) end) VE T_min_branch_length >>
   (* 164-194 *)
   (if variational then
      check (p_priors p) VE T_priors_unused >>
